@@ -70,6 +70,11 @@ func (Engine) Generate(prop, tier string, seed, run uint64) json.RawMessage {
 	p.ZeroLen = r.IntN(10) == 0
 	p.Crash = r.IntN(3) != 0
 	p.CrashSeed = r.Uint64()
+	if prop == "C12" {
+		// C12 judges every kill state of the cache file, also those inside a
+		// compaction; the byte-wise truncation series is C15's
+		p.Crash, p.Truncate = true, false
+	}
 	n := 3 + r.IntN(25)
 	// swarm: per-run operation mix (store-heavy, invalidate-heavy, reset-heavy)
 	wInv, wReset := 15, 16
@@ -337,6 +342,10 @@ func (Engine) Execute(planJSON json.RawMessage, scratch string) (res sim.RunResu
 	os.MkdirAll(scratch, 0o755)
 	path := filepath.Join(scratch, "cache.cidx")
 	zeroSeen := false
+	oracleName := "cache"
+	if p.Prop == "C12" {
+		oracleName = "restart-cache"
+	}
 	viol := func(msg string) {
 		if res.Viol != nil {
 			return
@@ -346,7 +355,7 @@ func (Engine) Execute(planJSON json.RawMessage, scratch string) (res sim.RunResu
 		if zeroSeen {
 			sig = "zero-length/" + kind
 		}
-		v := &sim.Violation{Property: p.Prop, Oracle: "cache", Signature: sig, Message: rest}
+		v := &sim.Violation{Property: p.Prop, Oracle: oracleName, Signature: sig, Message: rest}
 		if sim.Known[v.Key()] {
 			res.Count("known:"+v.Key(), 1)
 			if res.KnownMsg == nil {
@@ -361,7 +370,7 @@ func (Engine) Execute(planJSON json.RawMessage, scratch string) (res sim.RunResu
 	}
 	defer func() {
 		if e := recover(); e != nil {
-			res.Viol = &sim.Violation{Property: p.Prop, Oracle: "cache", Signature: "panic", Message: fmt.Sprint(e)}
+			res.Viol = &sim.Violation{Property: p.Prop, Oracle: oracleName, Signature: "panic", Message: fmt.Sprint(e)}
 		}
 	}()
 	c, err := converters.VerifNewCacheFile(path)
